@@ -84,7 +84,7 @@ def c14Inspect (args : List String) (impl : String) : String × String :=
       let asm := match toAsmTokens s with | none => "" | some t => "|".intercalate t
       let addrs := if isP2PKH s then "1" else "0"
       let json := match scriptType s with | none => "PANIC" | some _ => "ok"
-      let model := s!"type={ty} p2pkh={if isP2PKH s then "1" else "0"} p2pk={showChkB (isP2PK s)} p2sh={if isP2SH s then "1" else "0"} ms={showChkB (isMultiSigOut s)} data={if isData s then "1" else "0"} insc={showChkB (isP2PKHInscription s)} pkh={pkh} asm={asm} pi={pi} addrs={addrs} json={json}"
+      let model := s!"type={ty} p2pkh={if isP2PKH s then "1" else "0"} p2pk={showChkB (isP2PK s)} p2sh={if isP2SH s then "1" else "0"} ms={showChkB (isMultiSigOut s)} data={if isData s then "1" else "0"} insc={showChkB (isP2PKHInscription s)} pkh={pkh} asm={asm} pi={pi} addrs={addrs} json={json} inscd={if isInscribed s then "1" else "0"}"
       -- predicate on the implementation's answers
       let f := impl.splitOn " "
       let ity := fieldD f "type"
